@@ -147,7 +147,7 @@ theorem replay_insert_logs_gen (s r : Store) (pt sch : Levels) (tbls : List (Byt
       have hne : table ≠ sysPages := fun he => h.tsys.1 (he ▸ List.mem_map.mpr ⟨(table, t), ht, rfl⟩)
       have hF : PtLike pt (setVal pt a1.key (s.hdr.nextLSN + 1) (ptRow table (rootOff t'))) :=
         .inr ⟨_, _, _, rfl⟩
-      refine ⟨s', _, _, r2, erun, hc', ?_, hc2, hself.repoint hentF hne hF.facts.2.1, hentF, hnf',
+      refine ⟨s', _, _, r2, erun, hc', ?_, hc2, hself.repoint hentF hne hF.facts.1, hentF, hnf',
         by rw [hh2]; exact hnf1, hlk', by rw [hh2]; exact hlk1', ?_, .inr ⟨hmove, hlsn', rfl⟩⟩
       · rw [replayAll_cons_ok' hrun1, replayAll_cons_ok' hrun2]; rfl
       · rw [hh2, hlsn']
@@ -387,7 +387,7 @@ theorem pt0_self : PtSelf pt0 := by
   rw [pt0_entries] at hm
   simp only [List.mem_cons, Prod.mk.injEq, List.not_mem_nil, or_false] at hm
   rcases hm with ⟨_, rfl⟩ | ⟨h1, _⟩ | ⟨h1, _⟩
-  · rfl
+  · decide
   · rw [sysPages_eq, sysSchema_eq] at h1; exact absurd h1 (by decide)
   · rw [sysPages_eq] at h1; exact absurd h1 (by decide)
 
